@@ -214,6 +214,7 @@ PROPS = {
         "runs": [
             {"engine": "query", "args": ["-mode", "ecs"], "n_quick": 5000, "n_thorough": 300000},
             {"engine": "reply", "args": ["-mode", "seqecs"], "n_quick": 800, "n_thorough": 30000, "netns": True},
+            {"engine": "clientinfo", "args": ["-mode", "probe"], "n_quick": 600, "n_thorough": 60000},
         ],
         "trivial_tags": [r"^perr$", r"^ok$", r"/perr"],
         "rule": "queries with 1-6 EDNS options (ECS v4/32, v6/128, other prefix lengths/families, short ECS, MAC, unknown codes) at any "
